@@ -201,7 +201,7 @@ def collect_scripts(chk, binary, rng):
         jobs = []      # (family name, script line)
         for variant, name, sc in script_families():
             allv = scripts[variant]
-            step = (40 if variant == "full" else (12 if variant == "nohv" else 6)) if chk.quick else (3 if variant == "full" else 1)
+            step = (64 if variant == "full" else (16 if variant == "nohv" else 8)) if chk.quick else (8 if variant == "full" else (2 if variant == "nohv" else 1))
             for s in allv[rng.randrange(step)::step]:
                 jobs.append((name, {"scen": sc, "steps": s["steps"], "cap": 2, "bkcap": 3}))
         wd = vlib.scratch("c01s")
@@ -311,7 +311,7 @@ def run(chk):
     sessions += collect_masks(chk, binary, rng)
     t3 = time.time()
     vlib.log("[c01] lossless %.0fs, scripts %.0fs, masks %.0fs, %d sessions" % (t1 - t0, t2 - t1, t3 - t2, len(sessions)))
-    if len(sessions) < 3000:
+    if len(sessions) < 2500:
         raise vlib.Inconclusive("vacuous agreement run: %d sessions" % len(sessions))
     # (C) TLC decides; the driver's predicate must agree with it
     rejected = validate(chk, sessions)
